@@ -168,5 +168,5 @@ def run(rep, tier, seed):
 
 
 def replay(r):
-    print(r)
-    return 0
+    from tools import t3 as _t3
+    return _t3.replay_generic(r)
